@@ -262,3 +262,107 @@ Proof.
     + unfold masks16. simpl. auto 20.
     + apply in_map_iff. exists 5. split; [reflexivity|]. unfold masks16. simpl. auto 20.
 Qed.
+
+(* ---------------------------------------------------------------- Manager.sessions over connections *)
+Lemma find_drop : forall h l, find_session h (drop_session h l) = None.
+Proof.
+  induction l as [|s l IH]; simpl; [reflexivity|].
+  destruct (ms_handle s =? h) eqn:E; [assumption|]. simpl. rewrite E. assumption.
+Qed.
+
+Lemma forallb_drop : forall f h l, forallb f l = true -> forallb f (drop_session h l) = true.
+Proof.
+  induction l as [|s l IH]; simpl; intro H; [reflexivity|].
+  apply andb_true_iff in H. destruct H as [H1 H2].
+  destruct (ms_handle s =? h); [auto|]. simpl. rewrite H1. auto.
+Qed.
+
+Lemma drop_other : forall f h l,
+  (forall s, ms_handle s <> h -> f s = true -> True) ->
+  forallb f (drop_session h l) = true -> True.
+Proof. auto. Qed.
+
+(* after the connection went down no session is registered under its handle *)
+Lemma disconnect_ends_session : forall g h,
+  find_session h (mg_sessions (mgr_step g (OpDisconnect h))) = None.
+Proof. intros g h. cbn [mgr_step mg_sessions]. apply find_drop. Qed.
+
+Lemma epoch_after_disconnect : forall g h h',
+  epoch_of (mgr_step g (OpDisconnect h)) h' = if h' =? h then epoch_of g h + 1 else epoch_of g h'.
+Proof.
+  intros g h h'. unfold epoch_of at 1. cbn [mgr_step mg_epochs assoc].
+  destruct (h' =? h) eqn:E; [reflexivity|]. reflexivity.
+Qed.
+
+Lemma forallb_drop_epoch : forall g h e l,
+  forallb (fun s => ms_epoch s =? epoch_of g (ms_handle s)) l = true ->
+  forallb (fun s => ms_epoch s =? (if ms_handle s =? h then e else epoch_of g (ms_handle s)))
+          (drop_session h l) = true.
+Proof.
+  induction l as [|s l IH]; simpl; intro H; [reflexivity|].
+  apply andb_true_iff in H. destruct H as [H1 H2].
+  destruct (ms_handle s =? h) eqn:E; [auto|]. simpl. rewrite E, H1. auto.
+Qed.
+
+Lemma forallb_ext' : forall (A : Type) (f g : A -> bool) l,
+  (forall x, f x = g x) -> forallb f l = forallb g l.
+Proof. intros A f g l H. induction l as [|x l IH]; simpl; [reflexivity|]. rewrite H, IH. reflexivity. Qed.
+
+(* no sequence of pairings, ends and disconnections leaves a session bound to a closed connection *)
+Lemma mgr_step_ok : forall g o, mgr_ok g = true -> mgr_ok (mgr_step g o) = true.
+Proof.
+  intros g o H. unfold mgr_ok in *. destruct o as [h|h req|h failed|h].
+  - cbn [mgr_step new_session mg_sessions forallb ms_epoch ms_handle].
+    change (epoch_of (mkMgr _ (mg_epochs g) _) ?x) with (epoch_of g x).
+    rewrite Z.eqb_refl. cbn [andb]. apply forallb_drop. assumption.
+  - cbn [mgr_step]. destruct (find_session h (mg_sessions g)); [assumption|].
+    destruct req; [|assumption].
+    cbn [new_session mg_sessions forallb ms_epoch ms_handle].
+    change (epoch_of (mkMgr _ (mg_epochs g) _) ?x) with (epoch_of g x).
+    rewrite Z.eqb_refl. cbn [andb]. apply forallb_drop. assumption.
+  - cbn [mgr_step]. destruct (find_session h (mg_sessions g)) as [s|] eqn:F; [|assumption].
+    assert (Hs : ms_epoch s =? epoch_of g h = true).
+    { clear - H F. induction (mg_sessions g) as [|x l IH]; simpl in *; [discriminate|].
+      apply andb_true_iff in H. destruct H as [H1 H2].
+      destruct (ms_handle x =? h) eqn:E; [|auto]. injection F as <-. apply Z.eqb_eq in E. rewrite <- E. assumption. }
+    destruct failed; cbn [mg_sessions forallb ms_epoch ms_handle];
+      change (epoch_of (mkMgr _ (mg_epochs g) _) ?x) with (epoch_of g x).
+    + apply forallb_drop. assumption.
+    + rewrite Hs. cbn [andb]. apply forallb_drop. assumption.
+  - change (mg_sessions (mgr_step g (OpDisconnect h))) with (drop_session h (mg_sessions g)).
+    rewrite (forallb_ext' _ _ (fun s => ms_epoch s =? (if ms_handle s =? h then epoch_of g h + 1 else epoch_of g (ms_handle s)))).
+    + apply (forallb_drop_epoch g h (epoch_of g h + 1)). exact H.
+    + intro s. rewrite epoch_after_disconnect. reflexivity.
+Qed.
+
+Lemma mgr_always_ok : forall ops, mgr_ok (mgr_run ops) = true.
+Proof.
+  intro ops. unfold mgr_run.
+  assert (G : forall g, mgr_ok g = true -> mgr_ok (fold_left mgr_step ops g) = true).
+  { induction ops as [|o ops IH]; intros g H; [exact H|]. simpl. apply IH. apply mgr_step_ok. exact H. }
+  apply G. reflexivity.
+Qed.
+
+(* a pairing on a reused handle starts from a fresh session: after a disconnection the next
+   Manager.pair or Pairing Request registers a session that did not exist before *)
+Lemma fresh_session_after_disconnect : forall g h,
+  (forall s, In s (mg_sessions g) -> ms_id s < mg_next g) ->
+  let g1 := mgr_step g (OpDisconnect h) in
+  (exists s, find_session h (mg_sessions (mgr_step g1 (OpPair h))) = Some s /\ ms_id s = mg_next g /\ ms_completed s = false) /\
+  (exists s, find_session h (mg_sessions (mgr_step g1 (OpPdu h true))) = Some s /\ ms_id s = mg_next g /\ ms_completed s = false).
+Proof.
+  intros g h _ g1. split.
+  - cbn [g1 mgr_step new_session mg_sessions find_session ms_handle mg_next]. rewrite Z.eqb_refl. eauto.
+  - change (mgr_step g1 (OpPdu h true)) with
+      (match find_session h (mg_sessions g1) with Some _ => g1 | None => new_session g1 h end).
+    unfold g1 at 1. rewrite disconnect_ends_session.
+    cbn [g1 mgr_step new_session mg_sessions find_session ms_handle mg_next]. rewrite Z.eqb_refl. eauto.
+Qed.
+
+(* seeded change C13-e: sparing completed sessions at disconnection breaks the invariant, and the
+   next Pairing Request on the reused handle is handed to the stale session *)
+Lemma spare_completed_refuted :
+  let g := fold_left mgr_step_spare [OpPdu 1 true; OpEnded 1 false; OpDisconnect 1] mgr0 in
+  mgr_ok g = false /\
+  exists s, find_session 1 (mg_sessions (mgr_step_spare g (OpPdu 1 true))) = Some s /\ ms_completed s = true.
+Proof. vm_compute. split; [reflexivity|eauto]. Qed.
